@@ -26,10 +26,13 @@ TRUSTED = [
     "Coq 8.16.1 kernel (coqc); vm_compute only in Example/refuted witnesses",
     "no axioms (Print Assumptions: closed under the global context for every C10 theorem)",
     "extraction: ExtrOcamlBasic only; oracle/common/proto.ml + oracle/close/driver.ml (parser of the skeleton syntax, printers)",
-    "Go harness harness/cmd/gvh-close/main.go (IR walker over public ir types, Lua prelude with mk/bad/D/IT/CO helpers) and harness/hx",
+    "Go harness harness/cmd/gvh-close/main.go (IR walker over public ir types, Lua prelude with mk/bad/D/IT/CO helpers and the "
+    "Go-boundary wrappers VIA_LOAD/HOOK/GC/SORT/GSUB/TOSTRING/INDEX/CONCAT, UNCL) and harness/hx",
     "Python generator / renderer / diff in lib/props/C10.py (the renderer skeleton -> Lua source is trusted)",
-    "modelled not verified: registers and every other part of the compiler; metatables never change after creation "
-    "(so the run-time 'missing __close' check in cleanupCloseStack is not exercised); handlers are atomic (record, maybe raise)",
+    "modelled not verified: registers and every other part of the compiler; handlers are atomic (record, maybe raise); "
+    "Go boundaries are not instructions of the models: a callback of a Go function that handles the error itself is compared with the "
+    "models' pcall, one that passes the error on with the models' call; a value that loses __close with a raising handler whose "
+    "events are rewritten (lib/props/C10.py unclose_expected)",
 ]
 THEOREMS_IM = ["C10_compile_correct", "C10_tailcall_disabled_with_pending_close"]
 
@@ -40,38 +43,96 @@ THEOREMS_IM = ["C10_compile_correct", "C10_tailcall_disabled_with_pending_close"
 # v: ('p',) ('n',) ('o', id) ('r', id, h) ('x', id)
 
 
-def enc_v(v):
+# Extensions that exist only on the Lua side (the oracle sees their reduction):
+#   ('u', id)            a closable value whose __close metamethod is removed right after the declaration;
+#                        for the models: a value whose handler raises 900+id, the expected trace is then rewritten
+#                        (no call of the handler, error "missing __close" in flight instead), see unclose_expected
+#   ('P', b, via)        the function runs as a callback of a Go function that handles the error ITSELF:
+#                        via = load (reader function of load) | hook (debug hook) | gc (__gc finaliser); = pcall for the models
+#   ('C', b, via)        callback of a Go function that passes the error on: sort | gsub | tostring | index | concat; = call
+UNCLOSE_ERR = 900
+VIA_SWALLOW = {"load": "VIA_LOAD", "hook": "VIA_HOOK", "gc": "VIA_GC"}
+VIA_PASS = {"sort": "VIA_SORT", "gsub": "VIA_GSUB", "tostring": "VIA_TOSTRING", "index": "VIA_INDEX", "concat": "VIA_CONCAT"}
+
+
+def enc_v(v, ext=False):
     if v[0] in "pn":
         return v[0]
     if v[0] == "o":
         return "o%d" % v[1]
     if v[0] == "r":
         return "r%d.%d" % (v[1], v[2])
+    if v[0] == "u":
+        return "u%d" % v[1] if ext else "r%d.%d" % (v[1], UNCLOSE_ERR + v[1])
     return "x%d" % v[1]
 
 
-def enc_block(b):
-    parts = [enc_stmt(s) for s in b[0]]
+def enc_block(b, ext=False):
+    """ext=False: the oracle's syntax; ext=True: with the Lua-side extensions (corpus, replays)"""
+    parts = [enc_stmt(s, ext) for s in b[0]]
     if b[1] == "R":
         parts.append("R")
     elif b[1] is not None:
-        parts.append("T(%s)" % enc_block(b[1][1]))
+        parts.append("T(%s)" % enc_block(b[1][1], ext))
     return ";".join(parts)
 
 
-def enc_stmt(s):
+def enc_stmt(s, ext=False):
     k = s[0]
     if k == "L":
-        return "L" + enc_v(s[1])
+        return "L" + enc_v(s[1], ext)
     if k in "DWUICP":
-        return "%s(%s)" % (k, enc_block(s[1]))
+        via = "@" + s[2] if ext and len(s) > 2 else ""
+        return "%s%s(%s)" % (k, via, enc_block(s[1], ext))
     if k == "F":
-        return "F%s(%s)" % (enc_v(s[1]), enc_block(s[2]))
+        return "F%s(%s)" % (enc_v(s[1], ext), enc_block(s[2], ext))
     if k == "K":
-        return "K%s(%s)" % ("-" if s[1] is None else str(s[1]), enc_block(s[2]))
+        return "K%s(%s)" % ("-" if s[1] is None else str(s[1]), enc_block(s[2], ext))
     if k in "G:ME":
         return "%s%d" % (k, s[1])
     return k   # B Y
+
+
+def walk(b):
+    """all statements of a program, nested ones included"""
+    for s in b[0]:
+        yield s
+        if s[0] in "DWUICP":
+            yield from walk(s[1])
+        elif s[0] in "FK":
+            yield from walk(s[2])
+    if b[1] not in (None, "R"):
+        yield from walk(b[1][1])
+
+
+def vias(b):
+    return set(s[2] for s in walk(b) if s[0] in "CP" and len(s) > 2)
+
+
+def unclosed_ids(b):
+    return [s[1][1] for s in walk(b) if s[0] == "L" and s[1][0] == "u"]
+
+
+def unclose_expected(ev, ids):
+    """rewrite a model trace for values that lose __close after the declaration: the handler is not called
+    (no close event, no raise event of the stand-in error), the error 'missing __close' is in flight instead"""
+    if ev == "-":
+        return ev
+    toks = ev.split(",")
+    for i in ids:
+        h = "u%d" % (UNCLOSE_ERR + i)
+        out = []
+        k = 0
+        while k < len(toks):
+            t = toks[k]
+            if t.startswith("c%d:" % i) and k + 1 < len(toks) and toks[k + 1] == "r" + h:
+                k += 2
+                continue
+            out.append(t)
+            k += 1
+        toks = [("c" + t[1:].split(":")[0] + ":m") if t.startswith("c") and t.endswith(":" + h) else
+                (t[0] + "m" if t[0] in "pk" and t[1:] == h else t) for t in out]
+    return ",".join(toks) if toks else "-"
 
 
 def lua_v(v):
@@ -105,6 +166,8 @@ def lua_stmt(s, ind):
     if k == "L":
         if s[1][0] == "p":
             return [ind + "local x = 0"]
+        if s[1][0] == "u":
+            return [ind + "local x <close> = mk(%d)" % s[1][1], ind + "UNCL(x)"]
         return [ind + "local x <close> = " + lua_v(s[1])]
     if k == "D":
         return [ind + "do"] + lua_block(s[1], i2) + [ind + "end"]
@@ -129,8 +192,12 @@ def lua_stmt(s, ind):
     if k == "M":
         return [ind + 'emit("m", %d)' % s[1]]
     if k == "C":
+        if len(s) > 2:
+            return [ind + "Z = %s(function()" % VIA_PASS[s[2]]] + lua_block(s[1], i2) + [ind + "end)"]
         return [ind + "Z = (function()"] + lua_block(s[1], i2) + [ind + "end)()"]
     if k == "P":
+        if len(s) > 2:
+            return [ind + 'emit("p", %s(function()' % VIA_SWALLOW[s[2]]] + lua_block(s[1], i2) + [ind + "end))"]
         return [ind + 'emit("p", pcall(function()'] + lua_block(s[1], i2) + [ind + "end))"]
     if k == "K":
         return [ind + "CO(function()"] + lua_block(s[2], i2) + [ind + "end, %s)" % ("nil" if s[1] is None else str(s[1]))]
@@ -180,7 +247,10 @@ def canon_trace(tr):
         elif tag == "m":
             out.append("m" + a[1][1:])
         elif tag == "p":
-            out.append("p" + ("-" if a[1] == "b1" else err_tok(a[2] if len(a) > 2 else "n")))
+            if a[1] == "s3f":        # "?": the boundary does not report how the callback ended (hook, finaliser)
+                out.append("p*")
+            else:
+                out.append("p" + ("-" if a[1] == "b1" else err_tok(a[2] if len(a) > 2 else "n")))
         elif tag == "k":
             out.append("k" + err_tok(a[1] if len(a) > 1 else "n"))
         else:
@@ -219,7 +289,7 @@ def trace_predicates(evs):
             if cur != "-":
                 fails.append("event %d: ordinary code runs while error %s is in flight" % (i, cur))
         elif t in "pk":
-            if e[1:] != cur:
+            if e[1:] != cur and e[1:] != "*":
                 fails.append("event %d: %s reports %s but %s is in flight" % (i, "pcall" if t == "p" else "coroutine", e[1:], cur))
             cur = "-"
         else:
@@ -233,12 +303,19 @@ def trace_predicates(evs):
 CONSTRUCTS = "DWUFCP"
 
 
+# chain letters of the Go-boundary family: the function runs as a callback of a Go function
+BOUNDARY = {"Q": ("P", "load"), "H": ("P", "hook"), "Z": ("P", "gc"),
+            "S": ("C", "sort"), "G": ("C", "gsub"), "T": ("C", "tostring"), "X": ("C", "index"), "N": ("C", "concat")}
+
+
 def wrap(c, body, ids):
     """statement for construct c around block body"""
     if c == "F":
         return ("F", ids["forv"], body)
     if c == "K":
         return ("K", ids["k"], body)
+    if c in BOUNDARY:
+        return (BOUNDARY[c][0], body, BOUNDARY[c][1])
     return (c, body)
 
 
@@ -259,12 +336,20 @@ def nest_program(chain, exitk, raiser, coro_k=None, forv_mode=0):
             return ("r", i, 50 + i)
         if raiser == "mid" and level == d // 2:
             return ("r", i, 50 + i)
+        if raiser == "unclose-inner" and level == d:
+            return ("u", i)
+        if raiser == "unclose-outer" and level == 0:
+            return ("u", i)
+        if raiser == "unclose-mid" and level == d // 2 and 0 < level < d:
+            return ("u", i)
+        if raiser == "unclose-all":
+            return ("u", i)
         return ("o", i)
 
     # label for goto-out: placed after the construct of the outermost level that is in the same function as the innermost
     same_fn_from = 0
     for i, c in enumerate(chain):
-        if c in "CPK":
+        if c in "CPK" or c in BOUNDARY:
             same_fn_from = i + 1
     def build(level):
         if level == d:
@@ -306,7 +391,7 @@ def chain_ok(chain, exitk):
     # break needs an enclosing loop in the same function as the innermost level
     tail = []
     for c in chain:
-        if c in "CPK":
+        if c in "CPK" or c in BOUNDARY:
             tail = []
         else:
             tail.append(c)
@@ -334,6 +419,45 @@ def enumerate_family(maxd):
                 for r in ("none", "inner", "outer", "mid"):
                     n += 1
                     yield ("coro:%s:%s:%s" % ("".join(chain), k, r),
+                           nest_program(("K",) + chain, "yield", r, coro_k=k, forv_mode=n))
+
+
+def enumerate_boundary(maxd):
+    """Go-boundary family: an error (or any other exit) of a function that runs as a callback of a Go function —
+    the Go code either handles the error itself (load reader, debug hook, finaliser) or passes it on (sort comparator,
+    gsub replacement, __tostring / __index / __concat called by Go code); plus values that lose __close after their
+    declaration.  Invariant checked: when the Go code gets the error, the variables of the abandoned run have been
+    closed with it (the close stack is back at its height before the call)."""
+    exits = ["error", "fall", "return", "bad", "retcall"]
+    n = 0
+    for d in range(1, maxd + 1):
+        for chain in itertools.product(CONSTRUCTS + "".join(BOUNDARY), repeat=d):
+            if not any(c in BOUNDARY for c in chain):
+                continue
+            for ex in exits:
+                for r in ("none", "inner", "outer"):
+                    n += 1
+                    yield ("bound:%s:%s:%s" % ("".join(chain), ex, r), nest_program(chain, ex, r, forv_mode=n))
+    # values whose __close metamethod is removed after the declaration
+    for d in range(0, maxd + 1):
+        for chain in itertools.product(CONSTRUCTS + "QS", repeat=d):
+            for ex in ["error", "fall", "break", "goto", "return", "retcall"]:
+                if not chain_ok(chain, ex):
+                    continue
+                for r in ("unclose-inner", "unclose-outer", "unclose-mid", "unclose-all"):
+                    if d == 0 and r != "unclose-inner":
+                        continue
+                    n += 1
+                    yield ("uncl:%s:%s:%s" % ("".join(chain), ex, r), nest_program(chain, ex, r, forv_mode=n))
+    # a coroutine whose body crosses a boundary, closed while suspended / run to the end (no yield under hook or gc)
+    for d in range(1, maxd):
+        for chain in itertools.product(CONSTRUCTS + "QSGT", repeat=d):
+            if not any(c in BOUNDARY for c in chain):
+                continue
+            for k in (0, None):
+                for r in ("none", "inner"):
+                    n += 1
+                    yield ("bcoro:%s:%s:%s" % ("".join(chain), k, r),
                            nest_program(("K",) + chain, "yield", r, coro_k=k, forv_mode=n))
 
 
@@ -548,12 +672,21 @@ def judge(ck, r, counters):
         return diffs
     # (b) behaviour
     gt = canon_trace(g["T"])
-    r["gotrace"] = gt
     ref_ev = m["R"].split("|")[0]
     vm_ev = m["V"].split("|")[0] if "|" in m["V"] else m["V"]
+    uids = unclosed_ids(b)
+    if uids:
+        # values that lost __close: the models ran a raising handler in their place
+        ref_ev, vm_ev = unclose_expected(ref_ev, uids), unclose_expected(vm_ev, uids)
+    if vias(b) & {"hook", "gc"}:
+        # these boundaries drop the error: what the protected calls report is not compared in such programs
+        star = lambda ev: re.sub(r"(^|,)p[^,]*", r"\1p*", ev)
+        gt, ref_ev, vm_ev = star(gt), star(ref_ev), star(vm_ev)
+    r["gotrace"] = gt
+    r["expected"] = ref_ev
     if g["S"] != "ok":
         diffs.append(("status", "chunk ended with status %s (%s)" % (g["S"], unhex(g["E"]) if g["E"] != "-" else "")))
-    pf = trace_predicates(gt)
+    pf = [] if uids else trace_predicates(gt)     # (a missing __close raises without an event: no independent predicate)
     if pf:
         diffs.append(("pred", pf[0]))
     if gt != ref_ev:
@@ -590,7 +723,7 @@ def reductions(b):
     for i, s in enumerate(stmts):
         if s[0] in "DWUICP":
             for sub in reductions(s[1]):
-                yield (stmts[:i] + [(s[0], sub)] + stmts[i + 1:], ret)
+                yield (stmts[:i] + [(s[0], sub) + tuple(s[2:])] + stmts[i + 1:], ret)
             if s[0] in "DI":
                 yield (stmts[:i] + list(s[1][0]) + stmts[i + 1:], ret if s[1][1] is None else ret)
         elif s[0] == "F":
@@ -599,7 +732,7 @@ def reductions(b):
         elif s[0] == "K":
             for sub in reductions(s[2]):
                 yield (stmts[:i] + [("K", s[1], sub)] + stmts[i + 1:], ret)
-        elif s[0] == "L" and s[1][0] == "r":
+        elif s[0] == "L" and s[1][0] in "ru":
             yield (stmts[:i] + [("L", ("o", s[1][1]))] + stmts[i + 1:], ret)
     if ret not in (None, "R"):
         for sub in reductions(ret[1]):
@@ -639,6 +772,25 @@ def run(tier, seed):
         nd = 2 + rng.below(6)
         ds = "".join("1" if rng.chance(3, 4) else "0" for _ in range(nd))
         cases.append((name, b, ds))
+    # Go-boundary family (callbacks of Go functions, values that lose __close): all of depth 1, a sample of the rest
+    def bound_ok(name):
+        ch = name.split(":")[1]
+        return sum(ch.count(x) for x in "HZ") <= 1     # hooks are off inside a hook; one finaliser at a time
+    bfam = [x for x in enumerate_boundary(2 if tier == "quick" else 3) if bound_ok(x[0])]
+    total_boundary = len(bfam)
+    bsmall = [x for x in bfam if len(x[0].split(":")[1]) <= 1]
+    bbig = [x for x in bfam if len(x[0].split(":")[1]) > 1]
+    want = 400 if tier == "quick" else 12000
+    step = max(1, len(bbig) // want)
+    boff = rng.below(step)
+    bfam = bsmall + bbig[boff::step]
+    if tier == "quick":
+        # a finaliser boundary costs several full collections per program: keep one in three
+        bfam = [x for i, x in enumerate(bfam) if "Z" not in x[0].split(":")[1] or i % 3 == 0]
+    for name, b in bfam:
+        nd = 2 + rng.below(6)
+        ds = "".join("1" if rng.chance(3, 4) else "0" for _ in range(nd))
+        cases.append((name, b, ds))
     nfam = len(cases) - ncorpus
     nrand = 1500 if tier == "quick" else 40000
     for i in range(nrand):
@@ -657,12 +809,16 @@ def run(tier, seed):
     first_im = None
     for r in results:
         b = r["block"]
-        canon = enc_block(b) + "/" + r["ds"]
+        canon = enc_block(b, True) + "/" + r["ds"]
         diffs = judge(ck, r, counters)
         fam0 = r["family"].split(":")[0]
         ck.count("family:" + fam0)
         if fam0 in ("nest", "coro"):
             ck.count("exit:" + r["family"].split(":")[2])
+        for v in sorted(vias(b)):
+            ck.count("go boundary:" + v)
+        if unclosed_ids(b):
+            ck.count("value loses __close after declaration")
         gt = r.get("gotrace", "-")
         ck.case(canon, nontrivial=("c" in gt))
         ck.count("closes_in_trace:%s" % min(gt.count("c"), 6))
@@ -699,7 +855,7 @@ def run(tier, seed):
                 rr = evaluate(ck, gvh, oracle, [("shrunk", small, r["ds"])])
                 dd = judge(ck, rr[0], {"nocompile": 0, "fuel": 0, "vm_ne_ref": 0}) if rr else diffs
                 ck.violation("to-be-closed property fails on golua: " + (dd[0][1] if dd else diffs[0][1])[:300],
-                             {"kind": "Go!=S", "engine": "close", "program": enc_block(small), "decisions": r["ds"],
+                             {"kind": "Go!=S", "engine": "close", "program": enc_block(small, True), "decisions": r["ds"],
                               "lua": lua_program(small), "go_trace": rr[0].get("gotrace") if rr else None,
                               "reference_trace": rr[0]["model"]["R"] if rr else None,
                               "differences": [m for _, m in dd][:6], "family": r["family"],
@@ -712,7 +868,7 @@ def run(tier, seed):
         ck.violation("golua no longer matches the Coq models Close/Compile.v / Close/VMclose.v (%s); behaviour still equals the reference semantics on every generated program"
                      % ", ".join("%s:%d" % kv for kv in sorted(kinds.items())),
                      {"kind": "Go!=IM", "correspondence": "Go≈IM/close (instruction stream / close-stack VM)",
-                      "program": enc_block(r["block"]), "decisions": r["ds"], "lua": lua_program(r["block"]),
+                      "program": enc_block(r["block"], True), "decisions": r["ds"], "lua": lua_program(r["block"]),
                       "differences": [m for _, m in diffs][:6], "counts": kinds,
                       "theorems_no_longer_about_this_code": THEOREMS_IM}, no_input=True)
     if not ok_obl:
@@ -721,11 +877,13 @@ def run(tier, seed):
     for i in (0, ncorpus + 7, ncorpus + nfam // 2, ncorpus + nfam + 3):
         if 0 <= i < len(results):
             r = results[i]
-            ck.sample({"family": r["family"], "program": enc_block(r["block"]), "decisions": r["ds"],
+            ck.sample({"family": r["family"], "program": enc_block(r["block"], True), "decisions": r["ds"],
                        "go_ir": r["go"].get("I", "")[:300], "go_trace": r.get("gotrace"), "reference": r["model"]["R"]})
     ck.cov["difference_kinds"] = kinds
     ck.cov["template_family_total"] = total_family
     ck.cov["template_family_run"] = nfam
+    ck.cov["boundary_family_total"] = total_boundary
+    ck.cov["boundary_family_run"] = len(bfam)
     ck.cov["exhaustive"] = (tier != "quick")
     ck.cov["model_vm_differs_from_reference"] = counters["vm_ne_ref"]
     ck.cov["compile_errors_agreed"] = counters["nocompile"]
@@ -734,10 +892,15 @@ def run(tier, seed):
              "x exit kind at the innermost level (fall off, break, goto out, goto continue-label, return, return f(), error, non-closable value) "
              "x raising handler (none/inner/outer), plus coroutine-outermost chains closed at the 1st/2nd yield or run to the end "
              "(%d programs; quick: all of depth<=2 + sample); random skeletons (depth<=3, all constructs, gotos to random labels incl. ill-scoped); "
+             "Go-boundary family: the same chains with levels that run as CALLBACKS OF GO FUNCTIONS — load reader, debug hook, __gc finaliser "
+             "(the Go code handles the error itself) and sort comparator, gsub replacement, __tostring/__index/__concat (the error goes on) — "
+             "x exit (error, fall off, return, return f(), non-closable) x raising handler, values whose __close is removed after the declaration "
+             "(x every exit kind), coroutines closed while suspended under such a callback; "
              "non-trivial = at least one __close call observed on golua; distinct by program+decisions" % total_family,
         trusted_base=TRUSTED,
-        assumptions=["handlers are atomic (record, optionally raise); metatables are not changed after creation",
-                     "programs run under pcall on the main thread (rt.Call alone does not unwind the close stack on error)",
+        assumptions=["handlers are atomic (record, optionally raise); the only metatable change is the removal of __close right after a declaration",
+                     "programs run under pcall on the main thread",
+                     "in programs with a hook or finaliser boundary (which drop the error) what the protected calls report is not compared",
                      "programs on which the reference semantics runs out of fuel (%d steps) are compared at instruction level only" % FUEL])
 
 
@@ -762,6 +925,8 @@ def dec_block(s):
             return ("o", num())
         if c == "x":
             return ("x", num())
+        if c == "u":
+            return ("u", num())
         i = num()
         pos[0] += 1
         return ("r", i, num())
@@ -794,6 +959,10 @@ def dec_block(s):
         if c == "L":
             return ("L", val())
         if c in "DWUICP":
+            if peek() == "@":
+                m = re.match(r"@([a-z]+)", s[pos[0]:])
+                pos[0] += len(m.group(0))
+                return (c, paren(), m.group(1))
             return (c, paren())
         if c == "F":
             v = val()
